@@ -33,6 +33,8 @@ type legResult struct {
 	Assume    []string         `json:"assume"`
 	Viol      []legViol        `json:"viol"`
 	Inconcl   []string         `json:"inconclusive"`
+	Rule      string           `json:"rule"`
+	Floor     int              `json:"floor"`
 }
 
 func NewLeg(prop string) *Run {
@@ -47,7 +49,7 @@ func NewLeg(prop string) *Run {
 func (r *Run) FinishLeg() {
 	r.mu.Lock()
 	res := legResult{Evals: r.evals, DistinctN: r.distinctN, Classes: r.classes, Events: r.events, Samples: r.samples,
-		Extra: r.extra, Assume: r.assume, Inconcl: r.inconcl}
+		Extra: r.extra, Assume: r.assume, Inconcl: r.inconcl, Rule: r.legRule, Floor: r.legFloor}
 	for k := range r.distinct {
 		res.Distinct = append(res.Distinct, k)
 	}
@@ -165,6 +167,9 @@ func (r *Run) RunLeg(variant, name string, timeout time.Duration, extraEnv []str
 		r.extra[k] = v
 	}
 	r.inconcl = append(r.inconcl, res.Inconcl...)
+	if res.Rule != "" {
+		r.legRule, r.legFloor = res.Rule, res.Floor
+	}
 	r.mu.Unlock()
 	for _, a := range res.Assume {
 		r.Assume(a)
@@ -179,4 +184,45 @@ func (r *Run) RunLeg(variant, name string, timeout time.Duration, extraEnv []str
 		}
 	}
 	return out
+}
+
+// LegRule returns the rule and class floor handed over by the last child leg that ended with Finish.
+func (r *Run) LegRule() (string, int) { return r.legRule, r.legFloor }
+
+// CrashViolation turns a child leg that died (instead of handing over a result) into a verdict:
+// a panic or fatal error with a frame of the repository is a violation with a signature naming
+// that frame; anything else is inconclusive.
+func (r *Run) CrashViolation(o LegOutcome, what string) {
+	if o.OK {
+		return
+	}
+	if o.TimedOut {
+		r.Inconclusive(what + ": child process hit its watchdog")
+		return
+	}
+	first, frame := "", ""
+	for _, ln := range strings.Split(o.Stderr, "\n") {
+		t := strings.TrimSpace(ln)
+		if first == "" && (strings.HasPrefix(t, "panic:") || strings.HasPrefix(t, "fatal error:")) {
+			first = t
+		}
+		if first != "" && frame == "" && strings.HasPrefix(t, "example.com/scion-time/") {
+			frame = strings.TrimPrefix(t, "example.com/scion-time/")
+			if i := strings.LastIndex(frame, "("); i > 0 {
+				frame = frame[:i]
+			}
+		}
+	}
+	if first != "" && frame != "" {
+		r.Violation(what+"|panic:"+frame+"|process running the real client or listener died", "crash", map[string]any{"first_line": first, "stderr_tail": o.Stderr})
+		return
+	}
+	r.Inconclusive(what + ": child process ended without a result: " + first + " " + tailN(o.Stderr, 600))
+}
+
+func tailN(s string, n int) string {
+	if len(s) > n {
+		return s[len(s)-n:]
+	}
+	return s
 }
